@@ -640,6 +640,77 @@ let run_c14 ic =
    with End_of_file -> ());
   Printf.printf "SUMMARY cases=%d disagreements=%d impl_failures=%d impl_errors=%d dpkg_oracle_pairs=%d\n" !n !n_dis !n_fail !n_err !n_oracle
 
+(* ---------- C15 ---------- *)
+let c15_clause_name = function
+  | NName -> "name-states-metadata" | NExt -> "extension" | NEffect -> "asking-changes-package"
+  | NCliExit -> "cli-exit-status" | NCliFiles -> "cli-files" | NCliFormat -> "cli-format"
+
+let run_c15 file =
+  let n = ref 0 and n_dis = ref 0 and n_fail = ref 0 and n_err = ref 0 and n_cli = ref 0 in
+  (* the package cases *)
+  let ic = open_in file in
+  iter_cases ic (fun _ -> ()) (fun c ->
+      if c.format = "" then () else begin
+        incr n;
+        let f = fmt_of_string c.format in
+        match c.impl_err, c.decode_err with
+        | Some _, _ -> incr n_err
+        | None, Some d -> incr n_fail; report c.id true ["undecodable"] [] [d]
+        | None, None ->
+          let mi = minfo_of c in
+          let obs_meta = List.map (fun (k, v) -> (explode k, explode v)) c.meta in
+          let unchanged, stable = (match List.filter_map (fun (tag, t) -> if tag = "nameeffect" then Some (t.(1) = "1", t.(2) = "1") else None) c.extra with
+              | x :: _ -> x | [] -> (true, true)) in
+          let clauses = check_filename f obs_meta (explode c.filename) unchanged stable in
+          (* correspondence: the file name the model composes from the settings *)
+          let model_name = model_filename f (archtab_of f) mi in
+          let agree = (implode model_name = c.filename) in
+          if not agree then incr n_dis;
+          if clauses <> [] then incr n_fail;
+          let only_name = List.for_all (fun cl -> cl = NName) clauses && clauses <> [] in
+          let kf =
+            (if only_name && f = FArch && arch_prerelease_dropped mi then ["archlinux-pkgver-drops-prerelease"] else [])
+            @ (if only_name && f = FDeb && implode (gs mi "platform") <> "linux" then ["deb-filename-omits-platform"] else []) in
+          if (not agree) || clauses <> [] then
+            report ~kf c.id agree (List.map c15_clause_name clauses) []
+              [Printf.sprintf "file name %S; the metadata dictates %S; the model composes %S" c.filename (implode (expected_filename f obs_meta)) (implode model_name)]
+      end);
+  close_in ic;
+  (* the command-line cases *)
+  let ic = open_in file in
+  let cur = ref None and files = ref [] in
+  (try
+     while true do
+       let line = input_line ic in
+       let t = Array.of_list (String.split_on_char ' ' line) in
+       match t.(0) with
+       | "cli" -> cur := Some t; files := []
+       | "clifile" -> files := (unhex t.(1), unhex t.(2)) :: !files
+       | "clibuild" -> incr n_dis; Printf.printf "DISAGREE cli: the nfpm binary could not be built: %s\n" (unhexs t.(2))
+       | "cliend" ->
+         (match !cur with
+          | None -> ()
+          | Some t ->
+            incr n; incr n_cli;
+            let flag, target, conv = unhex t.(3), unhex t.(4), unhex t.(5) in
+            let is_dir = t.(6) = "1" and code = int_of_string t.(7) in
+            let registered = List.map explode ["deb"; "rpm"; "apk"; "ipk"; "archlinux"] in
+            let plan = cli_plan registered target is_dir flag conv in
+            let clauses = check_cli plan (z_of_int code) (List.rev !files) in
+            if clauses <> [] then begin
+              incr n_fail; incr n_dis;
+              report ("cli-" ^ t.(1)) false (List.map c15_clause_name clauses) []
+                [Printf.sprintf "format %s, -p %S, -t %S: exit %d, files [%s]; the model plans %s" (unhexs t.(2)) (implode flag) (implode target) code
+                   (String.concat "; " (List.map (fun (p, m) -> implode p ^ " (" ^ implode m ^ ")") (List.rev !files)))
+                   (match plan with CliErr -> "an error and no file" | CliOk (pk, path) -> implode pk ^ " at " ^ implode path)]
+            end);
+         cur := None
+       | _ -> ()
+     done
+   with End_of_file -> ());
+  close_in ic;
+  Printf.printf "SUMMARY cases=%d disagreements=%d impl_failures=%d impl_errors=%d cli_cases=%d\n" !n !n_dis !n_fail !n_err !n_cli
+
 let () =
   match Sys.argv with
   | [| _; "C05"; file |] -> let ic = open_in file in run_c05 ic; close_in ic
@@ -647,6 +718,7 @@ let () =
   | [| _; "C02"; file |] -> let ic = open_in file in run_c02 ic; close_in ic
   | [| _; "C03"; file |] -> let ic = open_in file in run_c03 ic; close_in ic
   | [| _; "C04"; file |] -> let ic = open_in file in run_c04 ic; close_in ic
+  | [| _; "C15"; file |] -> run_c15 file
   | [| _; "C14"; file |] -> let ic = open_in file in run_c14 ic; close_in ic
   | [| _; "C08"; file |] -> let ic = open_in file in run_c08 ic; close_in ic
   | [| _; "C09"; file |] -> let ic = open_in file in run_c09 ic; close_in ic
